@@ -89,6 +89,20 @@ pub fn run_observe(args: &[&str]) -> String {
     for rr in p.answers.iter().chain(p.name_servers.iter()).chain(p.additional_records.iter()) {
         observe_rr(rr, &p.questions, &mut errs);
     }
+    // the suffix algebra on every pair of names of the packet
+    let mut names: Vec<&simple_dns::Name> = p.questions.iter().map(|q| &q.qname).collect();
+    for rr in p.answers.iter().chain(p.name_servers.iter()).chain(p.additional_records.iter()) {
+        names.push(&rr.name);
+    }
+    for a in &names {
+        let _ = a.is_link_local();
+        let _ = a.get_labels().len();
+        for b in &names {
+            let _ = a.is_subdomain_of(b);
+            let _ = a.without(b).map(|n| n.to_string());
+            let _ = *a == *b;
+        }
+    }
     format!("OK {:x}", errs)
 }
 
@@ -192,11 +206,28 @@ pub fn run_hashi(args: &[&str]) -> String {
         None => return "BADCASE".into(),
     };
     let mut members: Vec<(String, u128)> = Vec::new();
+    let mut attrs: Vec<(String, Option<String>)> = Vec::new();
     for _ in 0..n {
         let k = match t.next() {
             Some(k) => k.to_string(),
             None => return "BADCASE".into(),
         };
+        if k == "A" {
+            let key = match t.bytes().and_then(|b| String::from_utf8(b).ok()) {
+                Some(x) => x,
+                None => return "BADCASE".into(),
+            };
+            let val = match t.next() {
+                Some("N") => None,
+                Some("V") => match t.bytes().and_then(|b| String::from_utf8(b).ok()) {
+                    Some(v) => Some(v),
+                    None => return "BADCASE".into(),
+                },
+                _ => return "BADCASE".into(),
+            };
+            attrs.push((key, val));
+            continue;
+        }
         match t.num() {
             Some(v) => members.push((k, v)),
             None => return "BADCASE".into(),
@@ -204,6 +235,14 @@ pub fn run_hashi(args: &[&str]) -> String {
     }
     let build = |ms: &[(String, u128)]| {
         let mut i = InstanceInformation::new(name.clone());
+        // every copy gets its own attribute map (own RandomState), filled in a different order
+        let mut at = attrs.clone();
+        if ms.len() % 2 == 1 {
+            at.reverse();
+        }
+        for (k, v) in at {
+            i = i.with_attribute(k, v);
+        }
         for (k, v) in ms {
             i = match k.as_str() {
                 "4" => i.with_ip_address(std::net::IpAddr::V4(std::net::Ipv4Addr::from(*v as u32))),
@@ -233,4 +272,36 @@ pub fn run_hashi(args: &[&str]) -> String {
     let eq = a == b && a == c;
     let same = stream(&a) == stream(&b) && stream(&a) == stream(&c);
     format!("{} {}", b01(eq), b01(same))
+}
+
+/// EQHASH N nameA nameB | EQHASH R rrA rrB: two values built independently: do they compare equal, and if so do they feed
+/// the hasher the same stream
+pub fn run_eqhash(args: &[&str]) -> String {
+    if args.is_empty() {
+        return "BADCASE".into();
+    }
+    let mut t = Toks { t: &args[1..], p: 0 };
+    match args[0] {
+        "N" => {
+            let (a, b) = match (t.name(), t.name()) {
+                (Some(a), Some(b)) if t.done() => (make_name(&a), make_name(&b)),
+                _ => return "BADCASE".into(),
+            };
+            format!("{} {}", b01(a == b), b01(stream(&a) == stream(&b)))
+        }
+        "R" => {
+            let (a, b) = match (read_rr(&mut t), read_rr(&mut t)) {
+                (Some(a), Some(b)) if t.done() => (a, b),
+                _ => return "BADCASE".into(),
+            };
+            format!(
+                "{} {} {} {}",
+                b01(a == b),
+                b01(stream(&a) == stream(&b)),
+                b01(a.rdata == b.rdata),
+                b01(stream(&a.rdata) == stream(&b.rdata))
+            )
+        }
+        _ => "BADCASE".into(),
+    }
 }
